@@ -39,6 +39,31 @@ def node_harness(kind):
     h.need_globals = ['_ZTIN10chaiscript9exception10eval_errorE', '_ZTIN10chaiscript11Boxed_ValueE']
     return h
 
+def ranged_for_harness():
+    import re
+    rx = r'chaiscript::eval::Ranged_For_AST_Node<.*>::eval_internal\(chaiscript::detail::Dispatch_State const&\) const$'
+    stubs = list(NODE_STUBS) + [r'chaiscript::boxed_cast<', DE + r'get_function\(', r'chaiscript::dispatch::dispatch<', r'std::_Rb_tree_increment', r'chaiscript::Boxed_Value::Boxed_Value<std::reference_wrapper']
+    g, info = core.translate(FAM, [rx], stubs, tag='RF_probe', cuts=NODE_CUTS)
+    ext = [e.split('|')[0].strip() for e in info['ext']]
+    def one(pat):
+        m = [e for e in ext if re.search(pat, e)]
+        if len(m) != 1: raise core.BuildError('C09 Ranged_For: expected exactly one external matching %s, found %d' % (pat, len(m)))
+        return 'F_' + core.cname(m[0])
+    d = {'NODE_EVAL': core.csym(FAM, rx), 'NEW_SCOPE': core.csym(FAM, DE + r'new_scope\(chaiscript::detail::Stack_Holder&\)'), 'POP_SCOPE': core.csym(FAM, DE + r'pop_scope\(chaiscript::detail::Stack_Holder&\)'),
+         'VOID_VAR': one(r'^_ZN10chaiscript8void_varEv$'), 'GET_FUNCTION': one(r'15Dispatch_Engine12get_functionE'), 'DISPATCH': one(r'^_ZN10chaiscript8dispatch8dispatchISt6vector'),
+         'CAST_BOOL': one(r'^_ZN10chaiscript10boxed_castIbEE'), 'CAST_VECTOR': one(r'^_ZN10chaiscript10boxed_castIRKSt6vector'), 'CAST_MAP': one(r'^_ZN10chaiscript10boxed_castIRKSt3map'),
+         'BV_FROM_PAIR_REF': one(r'^_ZN10chaiscript11Boxed_ValueC2ISt17reference_wrapperIKSt4pair'),
+         'TI_BREAK': '((char*)&g__ZTIN10chaiscript4eval6detail10Break_LoopE)', 'TI_CONTINUE': '((char*)&g__ZTIN10chaiscript4eval6detail13Continue_LoopE)',
+         'TI_VECTOR': '((char*)&g__ZTISt6vectorIN10chaiscript11Boxed_ValueESaIS1_EE)', 'TI_MAP': '((char*)&g__ZTISt3mapINSt7__cxx1112basic_stringIcSt11char_traitsIcESaIcEEEN10chaiscript11Boxed_ValueESt4lessIS5_ESaISt4pairIKS5_S7_EEE)',
+         'VERIF_STRCMP_BY_IDENTITY': 1}
+    W = ('witness: left by exception', 'witness: break', 'witness: continue then next element', 'witness: empty range', 'witness: ran to the end')
+    h = Harness('N.Ranged_For', FAM, [rx], 'c09_ranged_for.c', stubs=stubs, cuts=NODE_CUTS, shapes=[dict(d, ROUTE=r, _tag='route=' + nm, _witness=W) for r, nm in ((0, 'generic range'), (1, 'Vector'), (2, 'Map'))],
+                opts=['--unwind', '6', '--unwindset', 'log_count.0:26,main.0:6,main.1:6,main.2:6,main.3:6,main.4:6,streq.0:10,streq.1:11'], timeout=900, mem_gb=10, string_model=True,
+                inputs=['body_beh', 'range_beh', 'empty_beh', 'empty_val', 'front_beh', 'pop_beh', 'cast_throw_at', 'n_elems'],
+                note='up to 3 iterations (generic route) / 0-2 elements (Vector, Map); every range function call and the body return or throw per call; add_get_object (binding the loop variable) is cut with the other Dispatch_State members')
+    h.need_globals = ['_ZTIN10chaiscript9exception10eval_errorE', '_ZTIN10chaiscript11Boxed_ValueE', '_ZTISt6vectorIN10chaiscript11Boxed_ValueESaIS1_EE', '_ZTISt3mapINSt7__cxx1112basic_stringIcSt11char_traitsIcESaIcEEEN10chaiscript11Boxed_ValueESt4lessIS5_ESaISt4pairIKS5_S7_EEE']
+    return h
+
 def stack_harness(tier):
     SH = r'chaiscript::detail::Stack_Holder&'
     names = {1: 'new_scope', 2: 'pop_scope', 3: 'new_stack', 4: 'pop_stack', 5: 'new_function_call', 6: 'pop_function_call', 7: 'new_scope+pop_scope'}
@@ -59,11 +84,11 @@ def stack_harness(tier):
 
 def harnesses(tier):
     from props import C10, C07
-    hs = [node_harness(k) for k in KINDS] + [stack_harness(tier)]
+    hs = [node_harness(k) for k in KINDS] + [ranged_for_harness(), stack_harness(tier)]
     t = C10.try_harness(tier); t.name = 'N.Try(scope balance)'; hs.append(t)
     e = C07.equation_harness(); e.name = 'N.Equation(call balance)'; hs.append(e)
     return hs
 
 ASSUMPTIONS = ['children and get_bool_condition are abstract; in the node harnesses new_scope/pop_scope are counters - their real code on a Stack_Holder image is harness S0',
                'the induction over the tree (each node restores the depth if its children do) is an argument, not something the solver sees']
-OUTSIDE = ['nodes not listed (Ranged_For, Fun_Call, Lambda, Def, Dot_Access, Method ...)', 'Thread_Storage lookup of the holder (C14)']
+OUTSIDE = ['nodes not listed (Lambda, Def, Dot_Access, Array_Call, Method ...; Fun_Call: C10 X4)', 'Thread_Storage lookup of the holder (C14)']
